@@ -40,7 +40,7 @@ ASSUMPTIONS = [
     'inside the document = 1 <= line <= number of lines + 1 and 1 <= column <= length of that line + 1',
 ]
 POS = re.compile(r'line (\d+), column (\d+)')
-STRONG_OPS = ('kind', 'nonmember', 'misspell', 'dropkey', 'addkey')
+STRONG_OPS = ('kind', 'nonmember', 'misspell', 'dropkey', 'addkey', 'dupkey', 'intkey')
 
 
 def BOUNDS(tier):
@@ -193,6 +193,20 @@ def allowed_lines(op, site, tree0, tree1, root1):
         if kp is not None:
             lines.add(line_of(root1, kp))
         names = {docs.get_at(tree0, site)[2], docs.get_at(tree1, site)[2]}
+    elif op in ('dupkey', 'intkey'):
+        # site = path of the mapping; the offending pair was appended at its end ('dupkey': a key written twice, e.g. a
+        # key misspelt into the name of its neighbour; 'intkey': an added key that YAML reads as a number)
+        lines.add(line_of(root1, site))
+        kp = key_path_of(site)
+        if kp is not None:
+            lines.add(line_of(root1, kp))
+        m1n = node_at(root1, site)
+        last_key = m1n.value[-1][0]
+        lines.add(last_key.start_mark.line + 1)
+        for kn, _ in m1n.value[:-1]:
+            if kn.value == last_key.value:
+                lines.add(kn.start_mark.line + 1)
+        names = {str(last_key.value)}
     elif op in ('dropkey', 'addkey'):
         # site = path of the mapping
         lines.add(line_of(root1, site))
@@ -337,7 +351,7 @@ def finish(total, tier):
     for op in STRONG_OPS:
         if total.hist['strong:line-ok:' + op] < 100:
             raise core.Vacuous('corruption operator %s examined only %d times' % (op, total.hist['strong:line-ok:' + op]))
-    for op in ('misspell', 'dropkey', 'addkey'):
+    for op in ('misspell', 'dropkey', 'addkey', 'dupkey', 'intkey'):
         if total.hist['strong:key-named:' + op] < 50:
             raise core.Vacuous('key naming for %s examined only %d times' % (op, total.hist['strong:key-named:' + op]))
     if total.hist['weak:ok'] < 1000:
